@@ -29,6 +29,10 @@ def run(ctx):
     S.r31_horizon(ctx, sc)
     # "discards every event still pending": initialize relies on the event list's clear() and on its membership answers afterwards
     # (observers and heap discipline: shared rules with C01)
+    # "rebuilds the model ... including models that create their statistics there": a statistic created by construct_model() registers itself
+    # in the model whenever the simulator has one (shared rule with C11)
+    from .. import statrules as T
+    T.r113_model_registration(ctx)
     from . import c01
     ctx.uses('eventlist', 'simevent')
     for cname_ in ctx.prog.subclasses('EventListInterface'):
